@@ -7,7 +7,7 @@ P("C12",
   technique="Coq proof (invariant of the TickScheduler dedup guard by induction over arbitrary call/dispatch histories; clock "
             "arithmetic imported from the C42 model and its exactness lemmas) + exact model/implementation correspondence by "
             "vm_compute on per-component projections of runs of real TickingComponents in a real SerialEngine",
-  level_text="Model: one TickScheduler/TickingComponent (hasScheduledTick, nextTickTime, its queued tick events, TickNow, TickLater, "
+  level_text="Model: one TickScheduler/TickingComponent (hasScheduledTick, nextTickTime, lastHandledTime/hasHandledTick, its queued tick events, TickNow, TickLater, "
              "NotifyRecv, NotifyPortFree, Handle with an arbitrary progress bit, engine.Schedule's past-time panic, uint64 wrap) "
              "against an adversarial environment that advances engine time, issues calls (also from inside Tick()) and dispatches "
              "the earliest tick event. Theorems, for every frequency 1 Hz..1 THz and every such history whose next clock edges are "
@@ -15,8 +15,9 @@ P("C12",
              "c12_no_duplicate_tick_events (strictly increasing tick times; no two queued tick events share a time), "
              "c12_progress_reticks (after Tick() returned true the NEXT tick is exactly at the next edge and cannot be skipped), "
              "c12_notify_later_edge (after NotifyRecv/NotifyPortFree/TickLater the tick at the next edge is dispatched or still "
-             "queued with time not beyond it, and no tick lies strictly in between), c12_no_panic; c12_on_edge_once_per_instant_all_histories (clauses 1-2 for EVERY legal non-panicking history over 64-bit times, wrap-around of ThisTick/NextTick included, no range hypothesis); c12_tick_now_where characterises "
-             "TickNow including the same-instant drop after the tick was handled (C09's finding, witness included; not a C12 clause); "
+             "queued with time not beyond it, and no tick lies strictly in between), c12_no_panic; c12_on_edge_once_per_instant_all_histories (clauses 1-2 for EVERY legal non-panicking history over 64-bit times, wrap-around of ThisTick/NextTick included, no range hypothesis); c12_tick_now_where (TickNow as repaired by fix f717b29c: a tick at this edge or the next one is queued after every call, "
+             "also in the instant whose tick already ran - witness c12_tick_now_after_handled_next_edge_witness; the pre-fix drop is "
+             "kept as regression lemma c12_tick_now_old_refuted, cf. F-C09-1); "
              "regression lemmas refute the mutations >= -> > and NextTick -> ThisTick and show the silent stop at the 2^64 wrap. "
              "Tie: scripted multi-component runs (1-4 components, mixed and non-dividing periods, primary/secondary, self calls, optionally real messaging ports and a real noc/directconnection whose own TickScheduler is projected and replayed too, "
              "duplicate same-instant requests, overflow panics) are projected per component and replayed step by step by the model "
